@@ -45,17 +45,22 @@ pub fn examine(text: &str, which: Which, tier: Tier) {
     examine_at(text, which, tier, 0)
 }
 
-// Closed source texts of the simple type `t` (int, bool, type and non-dependent explicit function types
-// over them), two per base type so that both branches of a test on the argument are taken.
-fn inhabitants(t: &M, first_only: bool) -> Vec<String> {
-    let mut v = match t {
-        M::Int => vec!["0".to_owned(), "3".to_owned()],
-        M::Bool => vec!["true".to_owned(), "false".to_owned()],
-        M::Type => vec!["int".to_owned(), "bool".to_owned()],
+// Closed arguments of the simple type `t` (int, bool, type and non-dependent explicit function types
+// over them), as source text and as a term; two per base type so that both branches of a test on the
+// argument are taken.
+fn inhabitants(t: &M, first_only: bool) -> Vec<(String, M)> {
+    use crate::model::mterm::rc;
+    let mut v: Vec<(String, M)> = match t {
+        M::Int => vec![("0".to_owned(), M::Lit(0.into())), ("3".to_owned(), M::Lit(3.into()))],
+        M::Bool => vec![("true".to_owned(), M::True), ("false".to_owned(), M::False)],
+        M::Type => vec![("int".to_owned(), M::Int), ("bool".to_owned(), M::Bool)],
         M::Pi(_, false, a, b) => {
             let (Some(b), true) = (crate::model::mterm::shift(b, 0, -1), sem::is_closed(a)) else { return vec![] };
             let dom = surface::print(&sem::m_to_s(a, &mut vec![]));
-            inhabitants(&b, true).into_iter().map(|r| format!("((w : {dom}) => {r})")).collect()
+            inhabitants(&b, true)
+                .into_iter()
+                .map(|(r, m)| (format!("((w : {dom}) => {r})"), M::Lam(Rc::from("w"), false, a.clone(), rc(crate::model::mterm::shift(&m, 0, 1).unwrap()))))
+                .collect()
         }
         _ => vec![],
     };
@@ -70,28 +75,34 @@ fn inhabitants(t: &M, first_only: bool) -> Vec<String> {
 // (it should; if it does not, nothing is concluded) it is examined like every other program, and so is
 // its application to a second argument. This is where a checker that accepted P at the wrong type shows
 // at run time: the monitors of C01, C02, C04 and C06 see the states of `(P) a`.
+// The only type-level computation that `(P) a` adds to that of P is the instance of the codomain at a;
+// an argument for which the reference does not bring that instance to weak-head normal form well within
+// its fuel is left out (divergence written in the program is not a finding).
 fn applications(text: &str, ty: &M, which: Which, tier: Tier, depth: usize) {
     if depth >= 2 || ty.has_hole() {
         return;
     }
-    let mut ck = typing::Checker::new(sem::TYPING_FUEL);
-    let dom = match ck.eval(&typing::Env::Nil, ty) {
-        typing::V::Pi(false, dom, _) => {
+    let mut ck = typing::Checker::new(sem::TYPING_FUEL / 4);
+    let (dom, cod) = match ck.eval(&typing::Env::Nil, ty) {
+        typing::V::Pi(false, dom, cod) => {
             let d = ck.force(&dom);
-            ck.quote(0, &d)
+            (ck.quote(0, &d), cod)
         }
         _ => return,
     };
     if ck.exhausted || dom.has_hole() {
         return;
     }
-    for a in inhabitants(&dom, depth > 0) {
-        let applied = format!("({text}) {a}");
-        if !screened(&applied) {
+    for (a, am) in inhabitants(&dom, depth > 0) {
+        let mut ck = typing::Checker::new(2_000);
+        let av = ck.eval(&typing::Env::Nil, &am);
+        let _ = ck.instantiate(&cod, typing::done(av));
+        if ck.exhausted {
+            count!("skipped_divergent");
             continue;
         }
         count!("derived_applications");
-        examine_at(&applied, which, tier, depth + 1);
+        examine_at(&format!("({text}) {a}"), which, tier, depth + 1);
     }
 }
 
